@@ -196,18 +196,23 @@ fn main() {
                 let mut child = std::process::Command::new(std::env::current_exe().unwrap())
                     .args(["exec-case", &id])
                     .stdin(std::process::Stdio::piped())
-                    .stdout(std::process::Stdio::null())
+                    .stdout(std::process::Stdio::piped())
                     .spawn()
                     .expect("spawn");
                 let _ = child.stdin.take().unwrap().write_all(v["case"].to_string().as_bytes());
-                let st = child.wait().expect("wait");
-                match st.signal() {
-                    Some(sig) => {
+                let out = child.wait_with_output().expect("wait");
+                let verdict = String::from_utf8_lossy(&out.stdout).lines().any(|l| l.starts_with('{'));
+                match (out.status.signal(), verdict) {
+                    (Some(sig), _) => {
                         println!("REPRODUCED property={id} class={id}/crash detail=killed by signal {sig}");
                         std::process::exit(1);
                     }
-                    None => {
-                        println!("NOT-REPRODUCED property={id} (exit {:?})", st.code());
+                    (None, false) => {
+                        println!("REPRODUCED property={id} class={id}/crash detail=ended without a verdict (exit {:?})", out.status.code());
+                        std::process::exit(1);
+                    }
+                    (None, true) => {
+                        println!("NOT-REPRODUCED property={id} (exit {:?})", out.status.code());
                         std::process::exit(0);
                     }
                 }
